@@ -134,21 +134,23 @@ verif_harness! {
         Some(ra::inv_mix_columns(&ra::xor(&x, &k)) == ra::xor(&ra::inv_mix_columns(&x), &ra::inv_mix_columns(&k)))
     }
 }
-//@ harness name=fips_mc_inverse prop=C02,C17 tier=quick bits=32 est=30 desc="oracle lemma: InvMixColumns(MixColumns(c)) == c == MixColumns(InvMixColumns(c)) for all 2^32 values of one column, in each of the four column positions"
+//@ harness name=fips_mc_inverse prop=C02,C17 tier=quick bits=268 est=120 desc="oracle lemma, FIPS MixColumns M and InvMixColumns I are mutual inverses: (a) M(x^y) == M(x)^M(y) and I(x^y) == I(x)^I(y) for all 2^128 x 2^128 pairs, (b) I(M(e)) == e and M(I(e)) == e for every state e with a single non-zero byte (position and value symbolic); every state is the XOR of its 16 single-byte components, so (a)+(b) give I o M == M o I == id (the direct composition query is a wide-parity equivalence that does not finish)"
 verif_harness! {
     name: fips_mc_inverse,
-    bytes: 5,
-    unwind: 20,
+    bytes: 34,
+    unwind: 70,
     prop: |inp| {
-        let c = (inp[4] & 3) as usize;
-        let mut x = [0u8; 16];
-        let mut i = 0;
-        while i < 4 {
-            x[4 * c + i] = inp[i];
-            i += 1;
-        }
-        vcheck!(ra::inv_mix_columns(&ra::mix_columns(&x)) == x);
-        Some(ra::mix_columns(&ra::inv_mix_columns(&x)) == x)
+        let x: [u8; 16] = take(inp, 0);
+        let y: [u8; 16] = take(inp, 16);
+        let xy = ra::xor(&x, &y);
+        vcheck!(ra::mix_columns(&xy) == ra::xor(&ra::mix_columns(&x), &ra::mix_columns(&y)));
+        vcheck!(ra::inv_mix_columns(&xy) == ra::xor(&ra::inv_mix_columns(&x), &ra::inv_mix_columns(&y)));
+        let j = inp[32] as usize;
+        vassume!(j < 16);
+        let mut e = [0u8; 16];
+        e[j] = inp[33];
+        vcheck!(ra::inv_mix_columns(&ra::mix_columns(&e)) == e);
+        Some(ra::mix_columns(&ra::inv_mix_columns(&e)) == e)
     }
 }
 //@ harness name=fips_shiftrows_commute prop=C02 tier=quick bits=128 est=30 desc="oracle lemma: InvShiftRows and ShiftRows are mutually inverse, and InvShiftRows commutes with the bytewise InvSubBytes (it only moves bytes); all 2^128 states"
